@@ -94,6 +94,10 @@ type Path struct {
 	knownHit map[string]bool // known-finding ids whose region was entered (this path excluded them)
 	notes   []string
 	czN     int
+	auxVars []*Term
+	model   map[string]uint64 // a model of the current pc (nil = none cached)
+	evalMemo map[*Term]evalRes
+	modelHits, modelMisses int
 }
 
 func NewPath(prefix []Dec, s *Solver) *Path {
@@ -105,6 +109,11 @@ func NewPath(prefix []Dec, s *Solver) *Path {
 func (p *Path) assert(t *Term) {
 	if t.IsConst() {
 		return
+	}
+	if p.model != nil {
+		if v, ok := p.evalUnder(t); !ok || v != 1 {
+			p.setModel(nil)
+		}
 	}
 	p.pc = append(p.pc, t)
 	ref := p.em.Ref(t)
@@ -127,8 +136,63 @@ func (p *Path) check(t *Term) string {
 	p.solver.Send("(pop 1)\n")
 	if r == "unknown" {
 		p.unknowns++
+		if p.solver.dead {
+			panic(pathEnd{Outcome{Kind: OutUnsupported, Msg: "solver timeout (watchdog) - inconclusive at this bound"}})
+		}
 	}
 	return r
+}
+
+type evalRes struct {
+	v  uint64
+	ok bool
+}
+
+// evalUnder evaluates t under the cached model (memoised per model).
+func (p *Path) evalUnder(t *Term) (uint64, bool) {
+	if p.model == nil {
+		return 0, false
+	}
+	if p.evalMemo == nil {
+		p.evalMemo = map[*Term]evalRes{}
+	}
+	return evalMemo(t, p.model, p.evalMemo)
+}
+
+func (p *Path) setModel(m map[string]uint64) {
+	p.model = m
+	p.evalMemo = nil
+}
+
+// checkWithModel is check() that also fetches a model on sat.
+func (p *Path) checkWithModel(t *Term) (string, map[string]uint64) {
+	ref := p.em.Ref(t)
+	p.solver.Send(p.em.Flush())
+	p.solver.Send("(push 1)\n(assert " + ref + ")\n")
+	r := p.solver.Check()
+	var model map[string]uint64
+	if r == "sat" {
+		model = p.solver.GetValues(p.inputVars())
+	}
+	p.solver.Send("(pop 1)\n")
+	if r == "unknown" {
+		p.unknowns++
+		if p.solver.dead {
+			panic(pathEnd{Outcome{Kind: OutUnsupported, Msg: "solver timeout (watchdog) - inconclusive at this bound"}})
+		}
+	}
+	return r, model
+}
+
+func (p *Path) inputVars() []*Term {
+	var vars []*Term
+	for _, in := range p.inputs {
+		vars = append(vars, in.T)
+	}
+	for _, v := range p.auxVars {
+		vars = append(vars, v)
+	}
+	return vars
 }
 
 // Decide forks on a symbolic boolean.
@@ -152,7 +216,32 @@ func (p *Path) Decide(cond *Term) bool {
 		}
 		return d.B
 	}
-	rt := p.check(cond)
+	// frontier. Use the cached model of pc to get one direction for free.
+	if v, ok := p.evalUnder(cond); ok {
+		p.modelHits++
+		dir := v == 1
+		other := cond
+		if dir {
+			other = Not(cond)
+		}
+		r := p.check(other)
+		if r == "unsat" {
+			p.trace = append(p.trace, Dec{K: 'f', B: dir})
+			return dir
+		}
+		// both feasible: take the direction the model supports, queue the other
+		sib := append(append([]Dec(nil), p.trace...), Dec{K: 'b', B: !dir})
+		p.newWork = append(p.newWork, sib)
+		p.trace = append(p.trace, Dec{K: 'b', B: dir})
+		if dir {
+			p.assert(cond)
+		} else {
+			p.assert(Not(cond))
+		}
+		return dir
+	}
+	p.modelMisses++
+	rt, mt := p.checkWithModel(cond)
 	if rt == "unsat" {
 		p.trace = append(p.trace, Dec{K: 'f', B: false})
 		return false
@@ -160,12 +249,18 @@ func (p *Path) Decide(cond *Term) bool {
 	rf := p.check(Not(cond))
 	if rf == "unsat" {
 		p.trace = append(p.trace, Dec{K: 'f', B: true})
+		if mt != nil {
+			p.setModel(mt)
+		}
 		return true
 	}
 	sib := append(append([]Dec(nil), p.trace...), Dec{K: 'b', B: false})
 	p.newWork = append(p.newWork, sib)
 	p.trace = append(p.trace, Dec{K: 'b', B: true})
 	p.assert(cond)
+	if mt != nil {
+		p.setModel(mt)
+	}
 	return true
 }
 
@@ -189,11 +284,24 @@ func (p *Path) Concretize(t *Term) uint64 {
 			p.assert(Not(Eq(t, c)))
 			continue
 		}
-		// frontier: ask for a model value
+		// frontier: the cached model gives a feasible value for free
+		if v, ok := p.evalUnder(t); ok {
+			c := &Term{Op: OpConst, Sort: t.Sort, C: v}
+			other := p.check(Not(Eq(t, c)))
+			if other != "unsat" {
+				sib := append(append([]Dec(nil), p.trace...), Dec{K: 'c', B: false, V: v})
+				p.newWork = append(p.newWork, sib)
+			}
+			p.trace = append(p.trace, Dec{K: 'c', B: true, V: v})
+			p.assert(Eq(t, c))
+			return v
+		}
+		// ask the solver for a model value
 		cz := t
 		if t.Op != OpVar {
 			p.czN++
 			cz = Var(fmt.Sprintf("cz!%d", p.czN), t.Sort)
+			p.auxVars = append(p.auxVars, cz)
 			p.assert(Eq(cz, t))
 		} else {
 			p.em.Ref(t)
@@ -207,7 +315,11 @@ func (p *Path) Concretize(t *Term) uint64 {
 			}
 			panic(pathEnd{Outcome{Kind: OutInfeasible}})
 		}
-		v, ok := p.solver.GetValues([]*Term{cz})[cz.Name]
+		full := p.solver.GetValues(p.inputVars())
+		v, ok := full[cz.Name]
+		if ok {
+			p.setModel(full)
+		}
 		if !ok {
 			panic(pathEnd{Outcome{Kind: OutInternal, Msg: "no model value for concretise"}})
 		}
@@ -245,6 +357,9 @@ func (p *Path) NewInput(label, kind string, s Sort) *InputRec {
 	name := fmt.Sprintf("%s#%d", label, n)
 	in := &InputRec{Label: label, Kind: kind, T: Var(name, s)}
 	p.inputs = append(p.inputs, in)
+	if p.model != nil {
+		p.model[name] = 0
+	}
 	p.em.Ref(in.T)
 	p.solver.Send(p.em.Flush())
 	return in
